@@ -436,17 +436,6 @@ func (w *poolWorld) checkStop(first int) {
 // finishStatus folds the simulator's own verdict (deadlock, panic, misuse, ...) into the run
 // outcome. Abnormal ends poison the process (MustExit).
 func finishStatus(out *RunOut, res simrt.Result, prop string, v *Violation, ctxTag string) {
-	defer func() {
-		// concurrent lifecycle calls of the pool break in many timing-dependent ways (recorded
-		// finding): the signature is deliberately coarse there, and sharp everywhere else
-		if out.Violation != nil && ctxTag == "liferace" {
-			cl := out.Violation.Class
-			if strings.Contains(out.Violation.Signature, "|fatal|") {
-				cl = "fatal"
-			}
-			out.Violation.Signature = prop + "|liferace|" + cl
-		}
-	}()
 	switch res.Status {
 	case simrt.StatusOK:
 	case simrt.StatusStepLimit:
